@@ -346,6 +346,6 @@ def run_fuzz(ctx: Ctx, runner: Any, part: Part) -> None:
 
 
 PARTS = [
-    Part("texts", check_text, strategy=st_texts, quick=3200, thorough=160000),
+    Part("texts", check_text, strategy=st_texts, quick=12000, thorough=320000),
     Part("fuzz", check_text, custom=run_fuzz),
 ]
